@@ -130,7 +130,7 @@ def run(pid, tier, selftest, assumptions):
             if not st and r.get("ok") and "written" in r:
                 docs.append((t, False))
                 meta.append({"e": "value:" + c["type"], "pat": {"fam": "value", "cmt": c["cls"]}, "file_level_comment": False, "_result": r})
-    results = pc.run_loads(binp, [d for d, m in zip(docs, meta) if "_result" not in m], pid, want=("write", "cycle"))
+    results = pc.run_loads(binp, [d for d, m in zip(docs, meta) if "_result" not in m], pid, want=("write", "cycle", "file") if pid == "C01" else ("write", "cycle"))
     results = results + [m.pop("_result") for m in meta if "_result" in m]
     events, idx = [], []
     for i, r in enumerate(results):
